@@ -294,7 +294,7 @@ class Ex:
             v_ = m[d_][k_]
             self.pc.append(z3.ForAll([d_, k_], z3.Implies(z3.And(self.alloc[d_], has[d_][k_]),
                                                           z3.And(z3.Or(v_ == 0, self.alloc[v_]), z3.Or(k_ == 0, self.alloc[k_]))),
-                                     patterns=[v_], qid=f"good_heap_dict_{next(self.cnt)}"))
+                                     patterns=[z3.MultiPattern(v_, has[d_][k_])], qid=f"good_heap_dict_{next(self.cnt)}"))
             return
         if field.startswith("$") or m.sort().range() != INT:
             return
@@ -585,6 +585,13 @@ class Ex:
 
     def st_Return(self, s, fr):
         v = self.ev(s.value, fr) if s.value is not None else vnone()
+        con = fr.contract
+        if con is not None and con.ghost_after and not fr.spec and fr.fi is not None and fr.fi.node is not None \
+                and con.qual.split("#")[0] == fr.fi.qual:
+            rets = sorted((n for n in ast.walk(fr.fi.node) if isinstance(n, ast.Return)), key=lambda n: (n.lineno, n.col_offset))
+            k = [i for i, n in enumerate(rets) if n is s]
+            for stmt in con.ghost_after.get(f"return@{k[0]}" if k else "return@?", []):
+                self.ghost_exec(stmt, fr, v)          # `_call_result` is the value about to be returned
         raise ReturnEx(v)
 
     def st_Raise(self, s, fr):
@@ -1154,6 +1161,24 @@ class Ex:
         node = ast.parse(" ".join(text.split()), mode="eval").body
         if isinstance(node, ast.Call) and isinstance(node.func, ast.Name) and node.func.id == "setg_all":
             return self.ghost_setall(node, fr)
+        if isinstance(node, ast.Call) and isinstance(node.func, ast.Name) and node.func.id == "lemma":
+            # lemma("label", <formula>): an intermediate assertion - proved here (obligation of kind `lemma`), then available
+            from . import speceval
+            label = node.args[0].value
+            tags_ = node.args[2].value if len(node.args) > 2 else (" ".join(sorted(fr.contract.tags)) if fr.contract else "")
+            c = spec.Clause(label, ast.unparse(node.args[1]), tags_)
+            saved = fr.locals.get("_call_result")
+            fr.locals["_call_result"] = last_result
+            try:
+                g = speceval.clause(self, c, fr)
+            finally:
+                if saved is None:
+                    fr.locals.pop("_call_result", None)
+                else:
+                    fr.locals["_call_result"] = saved
+            self.oblige("lemma", label, g, c.tags, "", c.text)
+            self.assume(g)
+            return
         if not (isinstance(node, ast.Call) and isinstance(node.func, ast.Name) and node.func.id == "setg"):
             raise Unsupported(f"ghost statement {text!r}")
         was = fr.spec
@@ -1636,6 +1661,9 @@ class Ex:
         else:
             res = vnone()
         cfr.result = res
+        if res.ty.kind == "dict" and res.t is not None:
+            from . import models
+            self.assume(z3.Or(res.t == 0, models.dict_wf(self, res)))      # every dict object is a well-formed insertion-ordered map
         for c in con.ensures:
             self.assume(speceval.clause(self, c, cfr))
         if not (con.pure and not con.modifies) and spec.INVARIANTS:
